@@ -556,3 +556,5 @@ class C10(Check):
 
 
 CHECK = C10()
+# scope added in later rounds, kept in the evidence text
+CHECK.rule += ' Name-tag pairs where one tag is a prefix of the other (I / I_II, X / X_2 ...); the prefix given to the constructor or assigned afterwards must give the same names; a second request to the same BuildAssembly must repeat the first.'
